@@ -270,7 +270,7 @@ def run(ctx):
                 '0, 1, some, all fits; with/without additional dictionaries; inputs as file, one object, list. a case = one writer call; non-trivial = >=2 selected fits')
     ctx.assume('printed precision: %10.3e -> 5e-4 relative, %10.3f -> 5e-4 absolute', 'selectors whose threshold equals an attained value are skipped (C05 don\'t-care)',
                'parameter values are position-encoding: (model+1)*10^column, so any row mix-up is visible at printed precision')
-    ctx.require_events('FitInfo.filter_table:post', 'text:labels-used', 'text:write_parameters', 'text:write_parameter_ranges', 'text:extract_parameters', 'plot_params:table-checked', 'plot_params_2d:points-checked', 'plot_params_1d:histogram-checked')
+    ctx.require_events('FitInfo.filter_table:post', 'text:labels-used', 'text:write_parameters', 'text:write_parameter_ranges', 'text:extract_parameters', 'plot_params:table-checked', 'plot_params_2d:points-checked', 'plot_params_1d:histogram-checked', 'history:other-package-fitted-in-between')
     ctx.require_regimes('perm:identity', 'perm:reversed', 'perm:random', 'perm:name-sorted', 'selected:0', 'selected:1', 'selected:all', 'additional', 'additional:several', 'parameter:nan', 'extract:subset',
                         'input:file', 'input:object', 'input:list')
     n_pk = 8 if ctx.quick else 40
@@ -316,6 +316,21 @@ def run(ctx):
             nine = (valid == 9) | (valid == 0)
             flux[nine], err[nine] = 10.0 ** pred[nine], 0.1 * 10.0 ** pred[nine]
             infos.append(fitter.fit(gen.build_source('src%d' % isrc, valid, flux, err)))
+        # another package with the same model names but other parameter values (another row order too) is fitted by a second
+        # fitter while the first results are alive: the listings of the first results must still show the first package's rows
+        md2 = os.path.join(d, 'decoy')
+        os.makedirs(os.path.join(md2, 'convolved'))
+        pkg.write_conf(md2)
+        order2 = list(rng.permutation(n_models))
+        pkg.write_parameters(md2, [names[i] for i in order2], {c: (params[c] * 1.37 + 5.0)[order2] for c in colnames})
+        for f in range(nb):
+            pkg.write_convolved_file(os.path.join(md2, 'convolved', bn[f] + '.fits'), names, None, conv[:, :, f] * 1.1, conv[:, :, f] * 0.05, wav[f])
+        try:
+            decoy = gen.make_fitter(bn, np.ones(nb), md2, law, (0.0, 30.0))
+            decoy.fit(gen.build_source('decoy_src', valid, flux, err))
+            ctx.event('history:other-package-fitted-in-between')
+        except Exception as exc:
+            ctx.violation('setup:decoy-fitter', 'a second fitter on another package raised: %r' % (exc,), dict(perm=kind))
         path = os.path.join(d, 'fits.out')
         fo = FitInfoFile(path, 'w')
         for inf in infos:
